@@ -51,6 +51,10 @@ def plan(tier):
     t.append({'kind': 'zero'})
     t.append({'kind': 'big'})
     t.append({'kind': 'm3'})
+    for pa, pb in (('not-and', 'not-and'), ('cmp', 'cmp'), ('not-and', 'xor-nor'), ('or3', 'lr')):
+        for L in space.DEEP_LENGTHS[tier][:2]:
+            for sa, sb in (('fwd', 'fwd'), ('fwd', 'rev'), ('rev', 'fwd')):
+                t.append({'kind': 'deep', 'pa': pa, 'pb': pb, 'L': L, 'sa': sa, 'sb': sb})
     for lo in range(0, len(rep3_pool()), 6):
         t.append({'kind': 'rep3', 'lo': lo, 'hi': lo + 6})
     t.append({'kind': 'mismatch'})
@@ -59,7 +63,7 @@ def plan(tier):
 
 def describe(tier):
     return {
-        'rule': 'rep3: all ordered pairs of 81 operands built from three-operand AND/OR/XOR gates over every operand triple (operands read twice, inner NOT gate); ordered pairs (left, right) of circuit variants = circuit of F(n,<=k,{NOT,AND,OR,XOR,GT,constants}) x output list '
+        'rule': 'deep: miters of two chains of 1200/3000 gates (same and different patterns, storage orders), evaluated and solved; rep3: all ordered pairs of 81 operands built from three-operand AND/OR/XOR gates over every operand triple (operands read twice, inner NOT gate); ordered pairs (left, right) of circuit variants = circuit of F(n,<=k,{NOT,AND,OR,XOR,GT,constants}) x output list '
         '(every sequence of 1..2 nodes incl. inputs and repeats); both circuits share labels (also with the right circuit declaring the same input labels in reversed order); build_miter with default and custom '
         'block names; the miter is evaluated on all 2^n inputs through Circuit.evaluate and the reference evaluator; '
         'is_circuit_satisfiable(miter) with the shim solver; operands re-abstracted; every mismatched-shape pair from a small '
@@ -79,15 +83,21 @@ def probe():
     return refmodel.abstract(build_miter(a, b)).to_json()
 
 
-def check_pair(L, R, acc, names=None, right_inputs_reversed=False):
+def check_pair(L, R, acc, names=None, right_inputs_reversed=False, built=None):
     from cirbo.sat import build_miter, is_circuit_satisfiable
 
-    n, gl, ol = L
-    _, gr, orr = R
-    case = lambda: {'left': space.spec_json(n, gl, ol), 'right': space.spec_json(n, gr, orr), 'names': names, 'right_inputs_reversed': right_inputs_reversed}  # noqa: E731
+    if built is not None:
+        a, b, case_d = built
+        n = len(a.inputs)
+        ol = list(a.outputs)
+        case = lambda: dict(case_d)  # noqa: E731
+    else:
+        n, gl, ol = L
+        _, gr, orr = R
+        case = lambda: {'left': space.spec_json(n, gl, ol), 'right': space.spec_json(n, gr, orr), 'names': names, 'right_inputs_reversed': right_inputs_reversed}  # noqa: E731
+        a = space.build(n, gl, ol)
+        b = space.build(n, gr, orr)
     feats = {'m': len(ol)}
-    a = space.build(n, gl, ol)
-    b = space.build(n, gr, orr)
     if right_inputs_reversed:
         # same labels on both sides, declared in a different order: inputs correspond by POSITION
         b.set_inputs(list(reversed(b.inputs)))
@@ -306,6 +316,13 @@ def run_rep3(acc, lo, hi):
                 check_pair(L, R, acc, None, True)
 
 
+def run_deep(acc, pa, pb, L, sa, sb):
+    """miter of two chains deeper than the recursion limit (same / different pattern, storage orders)"""
+    a, _ = space.deep_chain(pa, L, sa, outputs='last')
+    b, _ = space.deep_chain(pb, L, sb, outputs='last')
+    check_pair(None, None, acc, built=(a, b, {'deep': [pa, pb], 'length': L, 'storage': [sa, sb]}))
+
+
 def run_task(task, acc):
     if task['kind'] == 'zero':
         return run_zero(acc)
@@ -315,6 +332,8 @@ def run_task(task, acc):
         return run_pairs(task, acc)
     if task['kind'] == 'm3':
         return run_m3(acc)
+    if task['kind'] == 'deep':
+        return run_deep(acc, task['pa'], task['pb'], task['L'], task['sa'], task['sb'])
     if task['kind'] == 'rep3':
         return run_rep3(acc, task['lo'], task['hi'])
     return run_mismatch(acc)
@@ -325,6 +344,8 @@ def replay(case, acc):
         return run_task(case['task'], acc)
     if 'big' in case:
         return run_big(acc)
+    if 'deep' in case:
+        return run_deep(acc, case['deep'][0], case['deep'][1], case['length'], case['storage'][0], case['storage'][1])
     L = space.spec_from_json(case['left'])
     R = space.spec_from_json(case['right'])
     if L[0] != R[0] or len(L[2]) != len(R[2]):
